@@ -43,6 +43,10 @@ def parse_model(line):
     return {"status": toks[0] if toks else "garbled", "msg": " ".join(toks[1:])}
 
 
+# harness/interp.go hostNames minus host_names of coq/Interp/InterpDriver.v
+IMPL_ONLY_HOSTS = re.compile(r"\b(mkdur|mkvals|mkints|mkptr|hsend|hcall0|hcall1|hcallr|hcall2|mkarr|mkarrs)\b")
+
+
 def run_interp_check(pid, gen, fields, counts, tier, seed, rule, design_ref, extra_assumptions=(), known_sig=None,
                      max_dropped=0.10, impl_oracle=None, expectations=(), extra=None):
     """expectations: directed programs with what the PROPERTY says they must yield (not the model):
@@ -135,7 +139,7 @@ def run_interp_check(pid, gen, fields, counts, tier, seed, rule, design_ref, ext
             if len(res.violations) < 8:
                 res.violation(rec)
         # directed expectations stated by the property itself, checked on the implementation alone
-        exp_checked = 0
+        exp_checked = directed_compared = 0
         if expectations:
             # every expectation that does not set up its own context is also run through vm.Run - the entry point without a
             # context, under which nothing is ever cancelled (ctx.Done() is nil): the property holds there just the same
@@ -146,6 +150,23 @@ def run_interp_check(pid, gen, fields, counts, tier, seed, rule, design_ref, ext
             common.sh([harness, "interp", "-srcfile", sf, "-out", scratch], env=common.GOENV, timeout=600)
             drecs = [json.loads(l) for l in open(os.path.join(scratch, "directed.jsonl"))]
             known_ids = {k.get("id"): k for k in known}
+            # the directed programs also tie the model: where the model covers a program it must agree with the implementation
+            dres = common.run_driver(driver, os.path.join(scratch, "directed.sx"))
+            for e, rec, line in zip(expectations, drecs, dres):
+                dm = parse_model(line)
+                if e["src"].startswith("#plain") or dm["status"] not in ("ok", "err") or rec["impl"]["status"] not in ("ok", "err"):
+                    continue
+                if IMPL_ONLY_HOSTS.search(e["src"]):
+                    continue    # Go functions of the harness that the model's host pool does not have
+                directed_compared += 1
+                ddiff = [f for f in fields if str(rec["impl"].get(f)) != str(dm.get(f))]
+                if rec["impl"]["status"] != dm["status"]:
+                    ddiff.append("status")
+                if ddiff:
+                    mism += 1
+                    if len(res.violations) < 12:
+                        res.violation({"property": pid, "kind": "model and implementation differ on " + ",".join(ddiff) + " (directed program)",
+                                       "source": e["src"], "impl": rec["impl"], "model": dm})
             for e, rec in zip(expectations, drecs):
                 exp_checked += 1
                 got = rec["impl"].get(e["field"]) if e["field"] != "status" else rec["impl"]["status"]
@@ -184,7 +205,7 @@ def run_interp_check(pid, gen, fields, counts, tier, seed, rule, design_ref, ext
                 "strconv/fmt float routines (oracle tables filled from the real functions)"],
             "evaluations": len(cases), "compared": compared, "judged_on_the_implementation_alone": impl_only, "distinct_nontrivial": meta["distinct_nontrivial"],
             "known_finding_hits": known_hits, "dropped_outside_fragment": dropped, "generated_programs_rejected_by_the_parser": meta.get("parse_failures", 0), "mismatches": mism, "implementation_panics": panics,
-            "compared_fields": list(fields), "rule": rule, "directed_expectations_checked": exp_checked, "constructs": meta["constructs"],
+            "compared_fields": list(fields), "rule": rule, "directed_expectations_checked": exp_checked, "directed_programs_compared_with_the_model": directed_compared, "constructs": meta["constructs"],
             "samples": [{"src": c["src"][:600], "impl": c["impl"]} for c in cases[len(cases) // 2: len(cases) // 2 + 2]],
             "make_ok": ok_make,
         }
